@@ -1,0 +1,128 @@
+//! Verification hooks, compiled only with the `verif` cargo feature.
+//! Read-only: nothing here changes the behaviour of the library.
+
+use super::Graph;
+use std::cell::Cell;
+use std::fmt::Display;
+use std::hash::Hash;
+
+/// A copy of the private indexes of a [Graph](../struct.Graph.html), for coherence checks.
+#[derive(Debug, Clone)]
+pub struct VerifSnapshot<T> {
+    /// `nodes_vec` names in position order
+    pub nodes_vec: Vec<T>,
+    /// `nodes_map` entries (name, position)
+    pub nodes_map: Vec<(T, usize)>,
+    /// `nodes_map_rev` entries (position, name)
+    pub nodes_map_rev: Vec<(usize, T)>,
+    /// name-keyed edge store: key and the (u, v, weight) of each stored edge in list order
+    pub edges: Vec<((T, T), Vec<(T, T, f64)>)>,
+    /// position-keyed edge store
+    pub edges_map: Vec<((usize, usize), Vec<(T, T, f64)>)>,
+    pub successors: Vec<(T, Vec<T>)>,
+    pub predecessors: Vec<(T, Vec<T>)>,
+    pub successors_map: Vec<(usize, Vec<usize>)>,
+    pub predecessors_map: Vec<(usize, Vec<usize>)>,
+    /// traversal lists: (neighbour position, weight)
+    pub successors_vec: Vec<Vec<(usize, f64)>>,
+    pub predecessors_vec: Vec<Vec<(usize, f64)>>,
+}
+
+impl<T, A> Graph<T, A>
+where
+    T: Eq + Clone + PartialOrd + Ord + Hash + Send + Sync + Display,
+    A: Clone,
+{
+    /// Returns a copy of the private indexes.
+    pub fn verif_snapshot(&self) -> VerifSnapshot<T> {
+        let el = |v: &Vec<std::sync::Arc<crate::Edge<T, A>>>| {
+            v.iter()
+                .map(|e| (e.u.clone(), e.v.clone(), e.weight))
+                .collect::<Vec<_>>()
+        };
+        VerifSnapshot {
+            nodes_vec: self.nodes_vec.iter().map(|n| n.name.clone()).collect(),
+            nodes_map: self
+                .nodes_map
+                .iter()
+                .map(|(k, v)| (k.clone(), *v))
+                .collect(),
+            nodes_map_rev: self
+                .nodes_map_rev
+                .iter()
+                .map(|(k, v)| (*k, v.name.clone()))
+                .collect(),
+            edges: self
+                .edges
+                .iter()
+                .map(|(k, v)| (k.clone(), el(v)))
+                .collect(),
+            edges_map: self
+                .edges_map
+                .iter()
+                .flat_map(|(u, hm)| hm.iter().map(move |(v, l)| ((*u, *v), l)))
+                .map(|(k, l)| (k, el(l)))
+                .collect(),
+            successors: self
+                .successors
+                .iter()
+                .map(|(k, v)| (k.clone(), v.iter().cloned().collect()))
+                .collect(),
+            predecessors: self
+                .predecessors
+                .iter()
+                .map(|(k, v)| (k.clone(), v.iter().cloned().collect()))
+                .collect(),
+            successors_map: self
+                .successors_map
+                .iter()
+                .map(|(k, v)| (*k, v.iter().copied().collect()))
+                .collect(),
+            predecessors_map: self
+                .predecessors_map
+                .iter()
+                .map(|(k, v)| (*k, v.iter().copied().collect()))
+                .collect(),
+            successors_vec: self
+                .successors_vec
+                .iter()
+                .map(|l| l.iter().map(|a| (a.node_index, a.weight)).collect())
+                .collect(),
+            predecessors_vec: self
+                .predecessors_vec
+                .iter()
+                .map(|l| l.iter().map(|a| (a.node_index, a.weight)).collect())
+                .collect(),
+        }
+    }
+}
+
+thread_local! {
+    static STEP_BUDGET: Cell<Option<u64>> = const { Cell::new(None) };
+}
+
+/// The message of the panic raised when the step budget is exhausted.
+pub const STEP_BUDGET_EXHAUSTED: &str = "graphrs verif: step budget exhausted";
+
+/// Sets (or clears) the calling thread's step budget for long-running loops.
+pub fn set_step_budget(budget: Option<u64>) {
+    STEP_BUDGET.with(|b| b.set(budget));
+}
+
+/// Returns what is left of the calling thread's step budget.
+pub fn get_step_budget() -> Option<u64> {
+    STEP_BUDGET.with(|b| b.get())
+}
+
+/// Consumes one step; panics with `STEP_BUDGET_EXHAUSTED` when a budget was set and is used up.
+pub fn tick() {
+    STEP_BUDGET.with(|b| {
+        if let Some(n) = b.get() {
+            if n == 0 {
+                b.set(None);
+                panic!("{}", STEP_BUDGET_EXHAUSTED);
+            }
+            b.set(Some(n - 1));
+        }
+    });
+}
